@@ -7,6 +7,8 @@ EXTENDS TLC
 Blame ==
      "hb.phase.mailbox" :> {"C01", "C03", "C04"}
   @@ "hb.fifo.mailbox"  :> {"C01"}
+  @@ "hb.phase.restart.ctx" :> {"C07", "C15"} @@ "hb.phase.restart.mailbox" :> {"C07"}
+  @@ "hb.phase.stop.ctx" :> {"C04", "C15"} @@ "hb.phase.stop.mailbox" :> {"C04"}
   @@ "hb.phase.timer"   :> {"C10", "C01"}
   @@ "hb.fifo.timer"    :> {"C10", "C01"}
   @@ "hb.phase.parent"  :> {"C16"}
@@ -111,7 +113,7 @@ Blame ==
   @@ "oe.ready.publish" :> {"C09"} @@ "oe.actor.publish" :> {"C09"}
   @@ "un.flush" :> {"C12", "C02"} @@ "un.resp" :> {"C02"} @@ "un.await" :> {"C04", "C02"} @@ "un.join" :> {"C17", "C02"}
   @@ "un.loop.closed" :> {"C05", "C03"} @@ "un.loop.closed.stream" :> {"C05", "C13", "C03"} @@ "un.loop.stream" :> {"C13"}
-  @@ "un.loop.deq.mailbox" :> {"C02", "C05"} @@ "un.loop.deq.timer" :> {"C10"} @@ "un.loop.deq.parent" :> {"C16"} @@ "un.loop.deq.broker" :> {"C09"} @@ "un.loop.deq.ctx" :> {"C04"}
+  @@ "un.loop.deq.mailbox" :> {"C02", "C05"} @@ "un.loop.deq.timer" :> {"C10"} @@ "un.loop.deq.parent" :> {"C16"} @@ "un.loop.deq.broker" :> {"C09"} @@ "un.loop.deq.ctx.stop" :> {"C04", "C15"} @@ "un.loop.deq.ctx.restart" :> {"C07", "C15"}
   @@ "un.loop" :> {"C02"} @@ "un.timer" :> {"C10"} @@ "un.adv" :> {"C10", "C11"}
   @@ "oe.cancel.send" :> {"C12"} @@ "oe.cancel.call" :> {"C02"} @@ "oe.cancel.ping" :> {"C02"} @@ "oe.cancel.join" :> {"C17"}
   @@ "oe.cancel.await_ref" :> {"C04"} @@ "oe.cancel.try_halt" :> {"C04"}
@@ -127,10 +129,10 @@ Blame ==
   @@ "blk.loop.closed.subscribed" :> {"C05", "C09"} @@ "q.loops.closed.subscribed" :> {"C05", "C09"} @@ "un.loop.closed.subscribed" :> {"C05", "C09"}
   @@ "blk.loop.closed.timers" :> {"C05", "C10"} @@ "q.loops.closed.timers" :> {"C05", "C10"} @@ "un.loop.closed.timers" :> {"C05", "C10"}
   @@ "blk.loop.closed" :> {"C05", "C03"} @@ "blk.loop.closed.stream" :> {"C05", "C13", "C03"} @@ "blk.loop.stream" :> {"C13"}
-  @@ "blk.loop.deq.mailbox" :> {"C02", "C05"} @@ "blk.loop.deq.ctx" :> {"C04"} @@ "blk.loop.deq.timer" :> {"C10"}
+  @@ "blk.loop.deq.mailbox" :> {"C02", "C05"} @@ "blk.loop.deq.ctx.stop" :> {"C04", "C15"} @@ "blk.loop.deq.ctx.restart" :> {"C07", "C15"} @@ "blk.loop.deq.timer" :> {"C10"}
   @@ "blk.loop.deq.parent" :> {"C16"} @@ "blk.loop.deq.broker" :> {"C09"}
   @@ "q.loops.closed" :> {"C05", "C03"} @@ "q.loops.closed.stream" :> {"C05", "C13", "C03"} @@ "q.loops.stream" :> {"C13"}
-  @@ "q.loops.deq.mailbox" :> {"C02", "C05"} @@ "q.loops.deq.ctx" :> {"C04"} @@ "q.loops.deq.timer" :> {"C10"}
+  @@ "q.loops.deq.mailbox" :> {"C02", "C05"} @@ "q.loops.deq.ctx.stop" :> {"C04", "C15"} @@ "q.loops.deq.ctx.restart" :> {"C07", "C15"} @@ "q.loops.deq.timer" :> {"C10"}
   @@ "q.loops.deq.parent" :> {"C16"} @@ "q.loops.deq.broker" :> {"C09"}
   @@ "q.loops.deq.parent.sibfail" :> {"C16", "C06"} @@ "blk.loop.deq.parent.sibfail" :> {"C16", "C06"} @@ "un.loop.deq.parent.sibfail" :> {"C16", "C06"}
   @@ "cb.pb.child" :> {"C16", "C05"}
